@@ -155,7 +155,7 @@ def entry(ctx, kind="euler"):
     ctx.prove("time info recorded for the model", ctx.all([ctx.eq(m.initialTime, tcur), ctx.eq(m.finalTime, tcur + sim), ctx.eq(m.deltaTime, sim)]))
 
 
-def entry_twice(ctx, kind="euler"):
+def entry_twice(ctx, kind="euler", kind2=None):
     """GenericModel.solve called twice on one model with different step fractions: each call honours ITS OWN minDtFrac / maxDtFrac
     (largest step <= maxDtFrac*simTime, and a model proposing nothing is advanced by minDtFrac*simTime per step)"""
     sims = [ctx.real("simTime%d" % k, (0.5, 2.0)) for k in range(2)]
@@ -163,19 +163,22 @@ def entry_twice(ctx, kind="euler"):
     for k in range(2):
         ctx.assume(sims[k] > 0); ctx.assume(fr[k] >= 0.3); ctx.assume(fr[k] <= 1)
     x0 = ctx.reals("x", 1, (-1.0, 1.0))
-    st = {"t": ctx.real("t_current", (-1.0, 1.0)), "post": []}
+    st = {"t": ctx.real("t_current", (-1.0, 1.0)), "post": [], "evals": 0}
+    kinds = [kind, kind2 or kind]
 
     class M(GenericModel):
         def setup(self_): pass
         def getCurrentX(self_): return st["t"], [x0]
-        def getdXdt(self_, t, x): return [x[0] * 0.0]
+        def getdXdt(self_, t, x): st["evals"] += 1; return [x[0] * 0.0]
         def getDt(self_, dXdt): return sims[0] * 100.0 + sims[1] * 100.0      # proposes far more than any allowed step
         def postProcess(self_, t, x): st["post"].append(t); st["t"] = t; return x, False
     m = M()
     for k in range(2):
-        t0 = st["t"]; n0 = len(st["post"])
-        m.solve(sims[k], solverType=KIND[kind], maxDtFrac=fr[k])
+        t0 = st["t"]; n0 = len(st["post"]); e0 = st["evals"]
+        m.solve(sims[k], solverType=KIND[kinds[k]], maxDtFrac=fr[k])
         steps = st["post"][n0:]
+        ctx.prove("call %d: the iterator asked for in THIS call is used (model evaluations per accepted step)" % (k + 1),
+                  st["evals"] - e0 == len(steps) * (4 if kinds[k] == "rk4" else 1))
         prev = t0
         for tt in steps:
             ctx.prove("call %d: no step exceeds this call's maxDtFrac * simTime" % (k + 1), ctx.le(tt - prev, fr[k] * sims[k]))
@@ -278,6 +281,7 @@ def coupler_clock(ctx, kind="euler"):
     allows that): every model is advanced from ITS current time by the requested duration, with increasing times"""
     t1 = ctx.real("t_modelA", (0.5, 3.0)); ctx.assume(t1 > 0)
     sim = ctx.real("simTime", (0.5, 2.0)); ctx.assume(sim > 0)
+    sim2 = ctx.real("simTime2", (0.5, 2.0)); ctx.assume(sim2 > 0)
     xs = [ctx.reals("xa", 1, (-1.0, 1.0)), ctx.reals("xb", 2, (-1.0, 1.0))]
     log = {0: [], 1: []}
 
@@ -286,7 +290,7 @@ def coupler_clock(ctx, kind="euler"):
         def setup(self_): pass
         def getCurrentX(self_): return self_.t, [xs[self_.idx]]
         def getdXdt(self_, t, x): return [x[0] * 0.0]
-        def getDt(self_, dXdt): return sim * 100.0
+        def getDt(self_, dXdt): return (sim + sim2) * 100.0
         def postProcess(self_, t, x): log[self_.idx].append(t); self_.t = t; return x, False
     a, b = M(0, t1), M(1, 0.0)
     c = Coupler([a, b])
@@ -296,6 +300,12 @@ def coupler_clock(ctx, kind="euler"):
         ctx.prove("the model that starts at 0 ends at the requested duration", ctx.eq(log[1][-1], sim))
         ctx.prove("a model advanced on its own before coupling continues from its own time (t1 + duration, never backwards)",
                   ctx.all([ctx.eq(log[0][-1], t1 + sim), ctx.lt(t1, log[0][-1])]))
+    # a second solve on the same coupler continues the coupling clock (and the model that started with it)
+    c.solve(sim2, solverType=KIND[kind])
+    ctx.prove("second solve: one more accepted step", len(log[1]) == 2)
+    if len(log[1]) == 2:
+        ctx.prove("second solve on the same coupler continues from the end of the first (sub-model time sim + sim2)", ctx.eq(log[1][-1], sim + sim2))
+        ctx.prove("second solve: coupling clock continues", ctx.eq(c.time[-1], sim + sim2))
 
 
 _F = [DESolver.solve, DESolver._getdXdt, DESolver._updateX, ExplicitEulerIterator, RK4Iterator, GenericModel.solve, GenericModel.setTimeInfo,
@@ -326,7 +336,7 @@ HARNESSES = [
             assumptions=["real arithmetic; the models propose more than the duration (one accepted step)"],
             params={"quick": [{"kind": "euler"}], "thorough": [{"kind": "euler"}, {"kind": "rk4"}]}),
     Harness("C05.entry_twice", entry_twice, functions=_F, assumptions=["real arithmetic", "0.3 <= maxDtFrac <= 1 (at most 4 steps per call)", "the model proposes more than any allowed step"],
-            bounds={"solve calls": 2}, params={"quick": [{"kind": "euler"}], "thorough": [{"kind": "euler"}, {"kind": "rk4"}]}),
+            bounds={"solve calls": 2}, params={"quick": [{"kind": "euler"}, {"kind": "euler", "kind2": "rk4"}], "thorough": [{"kind": "euler"}, {"kind": "rk4"}, {"kind": "rk4", "kind2": "euler"}]}),
     Harness("C05.layout", layout, functions=_F, bounds={"layouts": "<= 3 entries, each a scalar or a 1-D array of length <= 3 (enumerated)"},
             params={"quick": [{"lay": list(l)} for l in _lays[::5]], "thorough": [{"lay": list(l)} for l in _lays]}),
     Harness("C05.coupler", coupler, functions=_F, bounds={"models": 2, "layouts": "as listed"},
